@@ -2515,8 +2515,10 @@ def check_coverage():
 # assembly
 # ================================================================================================
 META = {
-    "level": "proof",
-    "explanation": "The global invariant (not dirty(o) => cache(o) = compute(o, current values)) is derived on paper "
+    "level": "other",
+    "explanation": "(Level 'other', not 'proof': the per-class obligations are proof-style, but the step to the global invariant is a "
+                   "paper argument and ten obligations are refuted on the current tree and listed as known findings.) "
+                   "The global invariant (not dirty(o) => cache(o) = compute(o, current values)) is derived on paper "
                    "(contracts/C11.md: induction on the length of the history and on the dependency DAG) from four families of "
                    "per-class obligations that are decided here on the REAL classes: (a) every public mutator leaves every "
                    "observer-protocol client invalidated, (b) every resolved handler never raises, sets every dirty flag and "
@@ -2552,8 +2554,9 @@ META = {
 }
 
 MANIFEST = {
-    "category": "proof",
-    "text": "Per-class contracts on the real torchtree classes (every Model / AbstractParameter subclass found by importing all "
+    "category": "other",
+    "text": "(Not claimed as a full proof: paper step from per-class obligations to the invariant; open known findings.) "
+            "Per-class contracts on the real torchtree classes (every Model / AbstractParameter subclass found by importing all "
             "modules): (a) public mutators notify, (b) handlers never raise, invalidate every dirty flag and propagate when the class "
             "reads a notifying dependency, (c) read set is a subset of the notifying set (recording proxies + AST over-approximation), "
             "(d) cached getters recompute from current dependencies and lose no notification. The global no-stale-cache invariant "
